@@ -29,6 +29,7 @@ From Coq Require Import List NArith ZArith Bool.
 From TexModel Require Import Base Tables Chars Tokenizer.
 From TexModel Require Tree Reader.
 From TexProofs Require Import TokProofs TokFacts TokInverse BoundaryProofs.
+From TexProofs Require ReaderCons.
 Import ListNotations.
 
 (* (i) at a token boundary, "\end{name}" with a non-empty name made of letters is
@@ -132,6 +133,39 @@ Theorem C11_first_occ_b_ok :
 Proof. exact first_occ_b_ok. Qed.
 Print Assumptions C11_first_occ_b_ok.
 
+(* the five-token condition ReaderCons.hyp_skip, everywhere: for verbatim-like names
+   that are non-empty and made of letters (name_ok_b n := letters n && n <> []; all
+   built-in names qualify, by computation), wherever at a token boundary the remaining
+   text starts with "\end{name}", the next five tokens are exactly "\end{name}".
+     hyp_skip SK toks := forall pre rest name, toks = pre ++ rest -> mem_str name SK = true ->
+        starts_with (texts (firstn (length (env_end name)) rest)) (env_end name) = true ->
+        texts (firstn 5 rest) = env_end name
+   So the known finding KF-skip-name-not-five-tokens needs a name with a non-letter. *)
+Theorem C11_hyp_skip_letters :
+  forall s SK,
+    clean s = true -> start_quirk s = false ->
+    forallb name_ok_b SK = true ->
+    ReaderCons.hyp_skip SK (toks_of s).
+Proof. exact hyp_skip_letters. Qed.
+Print Assumptions C11_hyp_skip_letters.
+
+Theorem C11_hyp_skip_builtin :
+  forall s user,
+    clean s = true -> start_quirk s = false -> forallb name_ok_b user = true ->
+    ReaderCons.hyp_skip (Tables.skip_env_names ++ user) (toks_of s).
+Proof. exact hyp_skip_builtin. Qed.
+Print Assumptions C11_hyp_skip_builtin.
+
+(* with a non-letter in the name it fails: "\begin{a[b}x\end{a[b}y" *)
+Theorem C11_hyp_skip_nonletter_refuted :
+  exists s name,
+    clean s = true /\ start_quirk s = false /\ name <> [] /\ letters name = false /\
+    exists pre rest, toks_of s = pre ++ rest /\
+      starts_with (Reader.texts (firstn (length (Tree.env_end name)) rest)) (Tree.env_end name) = true /\
+      Reader.texts (firstn 5 rest) <> Tree.env_end name.
+Proof. exact hyp_skip_nonletter_refuted. Qed.
+Print Assumptions C11_hyp_skip_nonletter_refuted.
+
 (* ------------------------------------------------ the provisos are needed *)
 
 (* (a) the body ends with a backslash (odd run): "\begin{verbatim}a\\end{verbatim}".
@@ -216,3 +250,9 @@ Example C11_end_five_tokens_ex :
   [([92]%N, TEscape); ([101; 110; 100]%N, TCommandName); ([123]%N, TGroupBegin);
    (s_verbatim, TText); ([125]%N, TGroupEnd); ([121]%N, TText)].
 Proof. vm_compute. reflexivity. Qed.
+
+(* the hypotheses of C11_hyp_skip_letters / C11_hyp_skip_builtin *)
+Example C11_hyp_skip_letters_ex :
+  clean ex_verb = true /\ start_quirk ex_verb = false /\
+  forallb name_ok_b Tables.skip_env_names = true.
+Proof. exact hyp_skip_letters_ex. Qed.
